@@ -1051,7 +1051,11 @@ pub fn check_c17(h: &Hist) -> POut {
         if m.cost_added.wrapping_sub(m.cost_evicted) != *used as u64 {
             out.violations.push(viol("C17", "R-cost-conservation", cp.seq, "cost_added - cost_evicted differs from the charged total", format!("added={} evicted={} used={}", m.cost_added, m.cost_evicted, used)));
         }
-        let dropped = h.ops.iter().filter(|o| matches!(o.op, Op::Insert { .. }) && o.inv_seq > since && o.ret_seq_or_max() < cp.seq && matches!(o.res, Some(Res::Bool(false)))).count() as u64;
+        let dropped = h.ops.iter().filter(|o| matches!(o.op, Op::Insert { .. }) && o.inv_seq > since && o.ret_seq_or_max() < cp.seq && matches!(o.res, Some(Res::Bool(false)))).count() as u64
+            + h.ops.iter().filter(|o| o.inv_seq > since && o.ret_seq_or_max() < cp.seq).map(|o| match (&o.op, &o.res) {
+                (Op::InsertMany { n, .. }, Some(Res::Num(ok))) => n.saturating_sub(*ok as u64),
+                _ => 0,
+            }).sum::<u64>();
         if m.sets_dropped != dropped {
             out.violations.push(viol("C17", "R-sets-dropped", cp.seq, "sets_dropped differs from the number of inserts refused for lack of buffer space", format!("sets_dropped={} refused inserts={}", m.sets_dropped, dropped)));
         }
